@@ -5,6 +5,7 @@ overlay of it, used by the self-test tier: {relative path: source text}); nothin
 from spydrnet is imported or executed.
 """
 import ast
+import itertools
 import re
 import hashlib
 import os
@@ -207,7 +208,12 @@ class Program:
 
     ROOTS = ("spydrnet", "spydrnet_extension")
 
+    _serials = itertools.count(1)
+
     def __init__(self, repo=None, overlay=None):
+        # (caches of derived views are keyed by this serial number, never by id(): the self-test builds many programs in one process
+        # and a freed program's address is handed out again)
+        self.serial = next(Program._serials)
         self.repo = repo or REPO
         self.overlay = dict(overlay or {})
         self.modules = {}
